@@ -179,7 +179,9 @@ kind, and the cells known not to conform (the `known` findings `construct:unconv
 def allowedClasses : String → List String
   | "str" => ["encragged:base", "encragged:alpha", "encflat:base", "encflat:alpha"]
   | "sid" => ["stringarray", "encflat:base", "encflat:alpha"]
-  | "int" | "float" | "bool" => ["ndarray:b", "ndarray:i", "ndarray:u", "ndarray:f"]
+  | "int" => ["ndarray:i", "ndarray:u"]
+  | "float" => ["ndarray:f"]
+  | "bool" => ["ndarray:b"]
   | "opt" => ["ndarray:b", "ndarray:i", "ndarray:u", "ndarray:f", "ndarray:O"]
   | "li" => ["ragged:b", "ragged:i", "ragged:u", "ragged:f", "ndarray:b", "ndarray:i", "ndarray:u", "ndarray:f"]
   | "dna" => ["encragged:alpha", "encflat:alpha"]
@@ -198,8 +200,20 @@ def knownUnconverted : List (String × String) := [
   ("inner", "nd_int"), ("inner", "nd_float"), ("inner", "nd_bool"), ("inner", "nd_str"), ("inner", "encoded_ragged"),
   ("inner", "dna_ragged"), ("inner", "string_array"), ("inner", "ragged_int"), ("inner", "series_str"), ("inner", "series_int")]
 
+/-- (field kind, argument form, stored class) cells where a numeric field keeps the numeric dtype of the VALUES
+instead of the declared one (`np.asanyarray` without a dtype: an `int` field given floats / None / booleans stores
+the float64 / bool array, a `float` or `bool` field given integers stores the integer array): neither cast nor
+rejected. Recorded findings `construct:dtype-kept-int|float|bool`. -/
+def knownDtypeKept : List (String × String × String) := [
+  ("int", "list_float", "ndarray:f"), ("int", "list_bool", "ndarray:b"), ("int", "list_none", "ndarray:f"), ("int", "nd_float", "ndarray:f"),
+  ("int", "nd_bool", "ndarray:b"), ("float", "list_int", "ndarray:i"), ("float", "list_bool", "ndarray:b"), ("float", "nd_int", "ndarray:i"),
+  ("float", "nd_bool", "ndarray:b"), ("float", "nd_obj_int", "ndarray:i"), ("float", "series_obj_int", "ndarray:i"), ("float", "series_int", "ndarray:i"),
+  ("bool", "list_int", "ndarray:i"), ("bool", "list_float", "ndarray:f"), ("bool", "list_none", "ndarray:f"), ("bool", "nd_int", "ndarray:i"),
+  ("bool", "nd_float", "ndarray:f"), ("bool", "nd_obj_int", "ndarray:i"), ("bool", "series_obj_int", "ndarray:i"), ("bool", "series_int", "ndarray:i")]
+
 def constructCellOK (row : String × String × String) : Bool :=
-  row.2.2 == "raise" || (allowedClasses row.1).contains row.2.2 || knownUnconverted.contains (row.1, row.2.1)
+  row.2.2 == "raise" || (allowedClasses row.1).contains row.2.2 || knownDtypeKept.contains row ||
+    knownUnconverted.contains (row.1, row.2.1)
 
 /-- `add_fields` without a type map: the classes a column inferred from each argument form may have
 (refusing is acceptable only where the values are no "basic type") -/
